@@ -10,7 +10,7 @@ from .. import core, tlc
 from .. import signauth as sa
 
 HEXD = "0123456789abcdef"
-ACTIONS = ("Build", "RefusedAuthorize", "Tool", "RoundTrip", "SigVer", "SendSig", "Finish")
+ACTIONS = ("Build", "RefusedAuthorize", "Step", "StepsDone", "RoundTrip", "SigVer", "SendSig", "Finish")
 MACHINERY_CLAUSES = ("OracleText", "UnknownEvent", "Stuck", "SignWithoutAuthorization",
                      "RoundTripWithoutAuthorization")
 
@@ -172,6 +172,11 @@ class Fixture:
 
 
 def plan_exchange(fx, rng, h, n, total, k, tool_pos):
+    tool_positions = set() if tool_pos is None else ({tool_pos} if isinstance(tool_pos, int) else set(tool_pos))
+    return _plan_exchange(fx, rng, h, n, total, k, tool_positions)
+
+
+def _plan_exchange(fx, rng, h, n, total, k, tool_positions):
     """Choose who signs each of the `total` file positions so that a device with `threshold` reaches it
     exactly at position k (or never, k = 99). Returns (signers, device authorizers, threshold) where
     signers[i] = (key, kind) with kind in valid | stranger | wrongdigest | duplicate.
@@ -188,14 +193,14 @@ def plan_exchange(fx, rng, h, n, total, k, tool_pos):
         thr = nvalid + rng.randint(1, 2)
     signers, auth, used = {}, [], []
     for pos in range(1, total + 1):
-        key = keys.pop()
+        key = keys.pop() if keys else sa.Key(rng)
         if pos in valid or (k != 99 and pos > k and rng.random() < 0.5):
             signers[pos] = (key, "valid")
             auth.append(key.pub)
             used.append(key)
         else:
-            kinds = ["stranger", "wrongdigest"] + (["duplicate"] if used and pos != tool_pos else [])
-            kind = rng.choice(kinds) if pos != tool_pos else "stranger"
+            kinds = ["stranger", "wrongdigest"] + (["duplicate"] if used else [])
+            kind = rng.choice(kinds) if pos not in tool_positions else "stranger"
             if kind == "duplicate":
                 key = rng.choice(used)
             elif kind == "wrongdigest":
@@ -239,6 +244,8 @@ def sources(b, rng):
     """entry paths a behaviour is replayed through: one (seeded) for well-formed bases, every applicable
     one for single-deviation behaviours (constructor, from_jsonfile, signapp -i for iteration texts)"""
     e = b["env"]
+    if e["mut"] == "absent":
+        return ["absent"]
     can_signapp = e["m"] == 0 and e["hcls"] == "lower" and e["mut"] in ("none", "iter", "iterspell") \
         and not e["icls"].startswith(("int_", "float", "bool", "none"))
     if e["mut"] == "none":
@@ -248,55 +255,123 @@ def sources(b, rng):
     return ["api", "file"] + (["signapp"] if can_signapp else [])
 
 
+ACCEPTED_SPELLINGS = ("upper", "mixed", "lead_ws", "trail_ws", "inner_ws", "trail_nl")
+BAD_ITER_ARGS = ("65536", "70000", "0x10000", "abc", "1.5", "0b1", "")
+
+
+def arg_text(shape, n, rng):
+    """the -i text of a step: `n` is the iteration the arguments name"""
+    if shape == "respelled":
+        return rng.choice(("0x%x", "0x%04X", "0%d", "0x%06x")) % n
+    if shape == "bad_iter":
+        return rng.choice(BAD_ITER_ARGS)
+    return str(n)
+
+
 def run_behaviour(ctx, fx, b, tag, src):
     """One generated behaviour + entry path -> a concrete recipe -> one recorded execution."""
     rng = ctx.rng
     e = b["env"]
-    iin = make_iter(e["icls"], rng)
+    steps = e["steps"]
+    absent = e["mut"] == "absent"
+    session = absent or len(steps) >= 2 or any(st["args"] != "none" for st in steps)
+    mid = mid_value(rng)
+    while mid > 65000:
+        mid = mid_value(rng)
+    iin = make_iter(e["icls"], rng, mid=mid)
     m = e["m"]
+    if absent:
+        src = "absent"
     desc = {"hcls": e["hcls"], "icls": e["icls"], "m": m, "mut": e["mut"], "at": e["at"], "kind": e["kind"],
-            "tool": e["tool"], "cur": e["cur"], "k": e["k"], "src": src}
-    cont = b["built"] == "built" and b["verdict"] == ""       # the model goes on after the build
+            "tool": e["tool"], "cur": e["cur"], "k": e["k"], "src": src,
+            "steps": [[st["op"], st["args"], st["file"]] for st in steps]}
+    cont = absent or (b["built"] == "built" and b["verdict"] == "")    # the model goes on after the build
     recipe = {}
+    apps = {"A": bytes(rng.getrandbits(8) for _ in range(rng.randrange(1, 200))),
+            "B": bytes(rng.getrandbits(8) for _ in range(rng.randrange(1, 200)))}
+    sha = {k: __import__("hashlib").sha256(v).digest() for k, v in apps.items()}
     if src == "signapp":
-        app = bytes(rng.getrandbits(8) for _ in range(rng.randrange(1, 700)))
-        recipe["app"] = app.hex()
-        hin = make_hash("lower", rng, raw=__import__("hashlib").sha256(app).digest())
+        recipe["app"] = apps["A"].hex()
+    if session or src == "signapp":
+        hin = make_hash("lower", rng, raw=sha["A"])
+        recipe["apps"] = {k: v.hex() for k, v in apps.items()}
     else:
         hin = make_hash(e["hcls"], rng)
-    h = hin["raw"]
+        sha["A"] = hin["raw"]
     try:
-        n = iter_value(iin)
+        n0 = iter_value(iin)
     except ValueError:
-        n = 1
-    if not (isinstance(n, int) and 0 <= n <= 65535) or (not cont and e["mut"] in ("iter", "iterspell")):
-        n = 1
-    tool = e["tool"] if cont else "?"
-    total = b["nsigs"] if cont else m
-    tool_pos = m + 1 if total == m + 1 else None
+        n0 = 1
+    if not (isinstance(n0, int) and 0 <= n0 <= 65535) or (not cont and e["mut"] in ("iter", "iterspell")):
+        n0 = 1
+    if absent:
+        n0 = mid
+    # follow the model's steps to know which version / which signatures the final file holds
+    cur_ver = ("A", n0)
+    items = [("init", i) for i in range(m)] if not absent else []
+    ver_at = {it: cur_ver for it in items}
+    stepn = []
+    for si, st in enumerate(steps if cont else []):
+        an = 65536 if st["args"] == "bad_iter" else n0 + (st["an"] - 258)
+        stepn.append(an)
+        if not st["ok"]:
+            continue
+        if st["op"] == "message":
+            cur_ver, items = (st["ah"], an), []
+        else:
+            if st["op"] in ("key", "eth") and st["file"] == "absent":
+                cur_ver = (st["ah"], an)
+            items.append(("step", si))
+            ver_at[("step", si)] = cur_ver
+    total = len(items)
+    if cont and total != b["nsigs"]:
+        raise core.MachineryError("concretiser and model disagree on the final file: %s vs %s (%s)" % (
+            total, b["nsigs"], json.dumps(e)))
+    h, n = sha[cur_ver[0]], cur_ver[1]
     k = e["k"] if cont and e["cur"] == "below" else 99
     desc["total"] = total
-    signers, auth, thr = plan_exchange(fx, rng, h, n, total, k, tool_pos)
-    sigs = [make_sig(signers[p][0], signers[p][1], h, n, rng) for p in range(1, m + 1)]
+    tool_positions = {i + 1 for i, it in enumerate(items)
+                      if it[0] == "step" and steps[it[1]]["op"] in ("key", "eth")}
+    signers, auth, thr = plan_exchange(fx, rng, h, n, total, k, tool_positions)
+    who = {it: signers[i + 1] for i, it in enumerate(items)}
+
+    def signer_of(item):
+        return who.get(item) or (fx.key(), "valid")
+
+    def sig_for(item):
+        key, kind = signer_of(item)
+        v = ver_at.get(item, cur_ver)
+        return make_sig(key, kind, sha[v[0]], v[1], rng)
+    sigs = [sig_for(("init", i)) for i in range(m)]
     if e["mut"] == "sig":
         sigs[e["at"] - 1] = sa.malform(bytes.fromhex(sigs[e["at"] - 1]), e["kind"], rng)
     elif e["mut"] == "sigspell":
         sigs[e["at"] - 1] = sa.spell(sigs[e["at"] - 1], e["kind"], rng)
     tools = []
-    if tool == "key":
-        tools.append({"op": "key", "key": signers[tool_pos][0].raw.hex()})
-    elif tool == "eth":
-        tools.append({"op": "eth", "key": signers[tool_pos][0].raw.hex(), "high_s": rng.random() < 0.4,
+    track = ("A", n0)
+    for si, st in enumerate(steps if cont else []):
+        op, item = st["op"], ("step", si)
+        t = {}
+        if st["args"] != "none":
+            t["args"] = {"app": st["ah"], "iter": arg_text(st["args"], stepn[si], rng)}
+        if op == "key":
+            t.update({"op": "key", "key": signer_of(item)[0].raw.hex()})
+        elif op == "eth":
+            t.update({"op": "eth", "key": signer_of(item)[0].raw.hex(), "high_s": rng.random() < 0.4,
                       "path": rng.choice((None, "m/44'/60'/0'/0/0", "m/44'/137'/0'/0/1"))})
-    elif tool == "manual_ok":
-        key, kind = signers[tool_pos]
-        tools.append({"op": "manual", "sig": make_sig(key, kind, h, n, rng)})
-    elif tool == "manual_spell":
-        key, kind = signers[tool_pos] if tool_pos else (fx.key(), "valid")
-        tools.append({"op": "manual", "sig": sa.spell(make_sig(key, kind, h, n, rng), e["kind"], rng)})
-    elif tool == "manual_bad":
-        s = make_sig(fx.key(), "valid", h, n, rng)
-        tools.append({"op": "manual", "sig": sa.malform(bytes.fromhex(s), rng.choice(sa.MALFORMED_KINDS), rng)})
+        elif op == "message":
+            t.update({"op": "message"})
+        else:
+            ver_at.setdefault(item, track)
+            g = sig_for(item)
+            if op == "manual_spell":
+                g = sa.spell(g, st["sp"], rng)
+            elif op == "manual_bad":
+                g = sa.malform(bytes.fromhex(g), rng.choice(sa.MALFORMED_KINDS), rng)
+            t.update({"op": "manual", "sig": g})
+        tools.append(t)
+        if st["ok"] and (op == "message" or (op in ("key", "eth") and st["file"] == "absent")):
+            track = (st["ah"], stepn[si])
     if e["cur"] == "below" and n > 0:
         cur = rng.randrange(0, n)
     elif e["cur"] == "?" and cont:
@@ -316,6 +391,11 @@ def signature(clause, t, ev=None):
     """stable abstract signature: the clause and the classes of the parts it depends on"""
     d = t["desc"]
     if ev is not None and ev.get("k") == "sign":
+        st = t.get("failing_step")
+        if st is not None:
+            if clause == "RefusesMalformed" and st[0] == "manual_spell":
+                return "%s|manual-signature-spelling=%s" % (clause, d["kind"])
+            return "%s|step=%s args=%s file=%s" % (clause, st[0], st[1], st[2])
         d = dict(d, tool=ev["via"], mut="none", spell=d.get("tool") == "manual_spell")
     if clause == "RefusesMalformed":
         part = {"hash": "hash=%s" % d["hcls"], "iter": "iteration=%s" % d["icls"],
@@ -493,6 +573,10 @@ def select(ctx, behaviours, quota):
         e = behaviours[i]["env"]
         keys = [("h", e["hcls"]), ("i", e["icls"]), ("mut", e["mut"], e["kind"], e["at"]),
                 ("tool", e["tool"], e["m"], e["kind"] if e["tool"] == "manual_spell" else ""),
+                ("nsteps", e["mut"], len(e["steps"]))] + [
+                ("step", i, st["op"], st["args"], st["file"], st["ok"]) for i, st in enumerate(e["steps"])] + [
+                ("pair", e["steps"][i]["op"], e["steps"][i]["args"], e["steps"][i + 1]["op"],
+                 e["steps"][i + 1]["args"]) for i in range(len(e["steps"]) - 1) if i == 0] + [
                 ("k", e["m"], e["k"], e["cur"])]
         new = [k for k in keys if k not in seen]
         if new:
@@ -523,7 +607,7 @@ def corruptions(traces):
                 return t
         return None
     done = lambda t: t["ev"][-1]["k"] == "outcome" and t["ev"][-1]["authorized"] == "t"   # noqa: E731
-    t = first(lambda t: t["ev"][0]["ok"] == "t")
+    t = first(lambda t: t["ev"][0]["k"] == "build" and t["ev"][0]["ok"] == "t")
     if t:
         e = copy.deepcopy(t["ev"])
         e[0]["o_digest"][5] ^= 1
@@ -576,8 +660,15 @@ def corruptions(traces):
     t = first(lambda t: any(x["k"] == "sign" and x["via"] in ("key", "eth") and x["ok"] == "t" for x in t["ev"]))
     if t:
         e = copy.deepcopy(t["ev"])
-        [x for x in e if x["k"] == "sign"][0]["verifies"] = "f"
+        [x for x in e if x["k"] == "sign" and x["via"] in ("key", "eth") and x["ok"] == "t"][0]["verifies"] = "f"
         add(t, e, "SignatureVerifies", "tool signature does not verify")
+    t = first(lambda t: t["ev"][0]["k"] == "build" and any(
+        x["k"] == "sign" and x["via"] in ("key", "eth") and x["ok"] == "t" for x in t["ev"][:2]))
+    if t:
+        e = copy.deepcopy(t["ev"])
+        x = [x for x in e if x["k"] == "sign"][0]
+        x["file"]["iter"] += 1
+        add(t, e, "FileNamesItsVersion", "the file names another iteration after signapp key on it")
     return out
 
 
@@ -627,6 +718,10 @@ def judge(res, traces, shards):
             d = t["descs"][max(0, min(len(t["descs"]) - 1, v.get("at", 1) - 1))]
             tt = {"desc": dict(d, mut="none", kind="?"), "input": d}
         at = v.get("at", 0)
+        if "steps" in tt["desc"] and 0 < at <= len(t["ev"]) and t["ev"][at - 1]["k"] == "sign":
+            si = sum(1 for x in t["ev"][:at] if x["k"] == "sign") - 1
+            if si < len(tt["desc"]["steps"]):
+                tt = dict(tt, failing_step=tt["desc"]["steps"][si])
         evk = t["ev"][at - 1]["k"] if 0 < at <= len(t["ev"]) else "?"
         res.violation(signature(v["clause"], tt, t["ev"][at - 1] if 0 < at <= len(t["ev"]) else None),
                       "%s broken at event %s (%s) of a %s execution: classes %s; input %s" % (
@@ -670,10 +765,12 @@ def run(ctx):
         raise core.MachineryError(err)
     # 1. design check, exhaustive (+ the negative configuration, concurrently)
     import concurrent.futures as cf
-    with cf.ThreadPoolExecutor(max_workers=2) as ex:
+    with cf.ThreadPoolExecutor(max_workers=3) as ex:
         f_mc = ex.submit(tlc.check, "SignerAuth", "MC_SignerAuth.cfg", coverage=True, workers=4)
         f_neg = ex.submit(tlc.run, "SignerAuth", "Neg_SignerAuth.cfg", workers=1)
+        f_gen = ex.submit(tlc.generate, "GenSignerAuth", "Gen_SignerAuth.cfg")
         r, rn = f_mc.result(), f_neg.result()
+        behaviours, rg = f_gen.result()
     if r.violated:
         raise core.MachineryError("SignerAuth model violates %s — reproduce on the code before reporting"
                                   % r.violated)
@@ -687,7 +784,6 @@ def run(ctx):
         raise core.MachineryError("vacuity guard: the model never authorizes")
     lap("tlc_model")
     # 2. all behaviours of the model
-    behaviours, rg = tlc.generate("GenSignerAuth", "Gen_SignerAuth.cfg")
     res.add_tlc(rg, "Gen_SignerAuth behaviours")
     res.coverage["behaviours_generated"] = len(behaviours)
     # vacuity, on TLC's own terminal states: authorised, refused and "all sent, never authorised" all occur
@@ -702,7 +798,7 @@ def run(ctx):
     lap("tlc_generate")
     # 3. replay on the real code
     fx = Fixture(ctx.rng)
-    order = select(ctx, behaviours, ctx.pick(800, len(behaviours)))
+    order = select(ctx, behaviours, ctx.pick(1000, len(behaviours)))
     traces, drift = [], 0
     for bi in order:
         b = behaviours[bi]
